@@ -251,6 +251,11 @@ func runEntry(op string, data []byte) (ans string) {
 			ans = "panic " + strings.ReplaceAll(fmt.Sprint(r), "\n", " ")
 		}
 	}()
+	// the entry points get a slice whose capacity is exactly its length: reading past the end of the input panics
+	// instead of silently reading the spare bytes of a larger buffer
+	exact := make([]byte, len(data))
+	copy(exact, data)
+	data = exact[:len(exact):len(exact)]
 	if strings.HasPrefix(op, "x:") {
 		return childExtra(op[2:], data)
 	}
